@@ -333,7 +333,20 @@ func (c19) RunCase(c *core.Ctx) {
 		valsBefore := snapAll(vals)
 		inputBefore := obs.Snapshot(in.data)
 		var out *run.Outcome
-		if mode == ref.Parse {
+		aliased := false
+		if mode == ref.Parse && c.R.Intn(3) == 0 {
+			// the caller's destination already holds slices that share their arrays with the input ("start from the current
+			// values", Parse(tags, &tags)) or with the schema's defaults (cfg.Tags = defaultTags): Parse must not write through them
+			dp := run.NewDest(n, nil)
+			var nd any
+			nd, aliased = aliasDest(c.R, n, in.data, dp.Elem())
+			if aliased {
+				in.data, input = nd, nd
+				inputBefore = obs.Snapshot(in.data)
+				c.Count("parses_into_destination_sharing_memory_with_input_or_default", 1)
+			}
+			out = run.ParseInto(b, in.data, dp)
+		} else if mode == ref.Parse {
 			out = run.Parse(b, in.data, nil)
 		} else {
 			vp := run.NewDest(n, in.val)
@@ -389,6 +402,9 @@ func (c19) RunCase(c *core.Ctx) {
 				return
 			}
 		}
+		if aliased {
+			continue // an untouched (absent) position legitimately still holds the caller's shared slice: nothing to overwrite here
+		}
 		// the destination never shares mutable memory with the schema: overwrite it and look at the schema again
 		scribble(out.DestVal.Elem(), 0)
 		if !check("by-writing-to-the-destination-afterwards") {
@@ -413,6 +429,68 @@ func (c19) RunCase(c *core.Ctx) {
 			c.Sample(map[string]any{"schema": src, "history": history})
 		}
 	}
+}
+
+// aliasDest pre-populates slice positions of the destination with slices that share their backing array with the input (the
+// input is converted to a slice of exactly the destination's type for that) or, where the input is absent, with the schema's
+// Default slice. It returns the input to use and whether any position was shared.
+func aliasDest(r *rng.Rand, n *spec.Node, data any, dest reflect.Value) (any, bool) {
+	switch n.Kind {
+	case spec.Struct:
+		m, ok := data.(map[string]any)
+		if !ok || dest.Kind() != reflect.Struct {
+			return data, false
+		}
+		out := map[string]any{}
+		for k, v := range m {
+			out[k] = v
+		}
+		shared := false
+		for i := range n.Fields {
+			f := &n.Fields[i]
+			fd := dest.FieldByName(f.GoName)
+			if !fd.IsValid() {
+				continue
+			}
+			key := f.DataKey("")
+			nd, a := aliasDest(r, f.Node, m[key], fd)
+			if a {
+				shared = true
+				if _, had := m[key]; had {
+					out[key] = nd
+				}
+			}
+		}
+		return out, shared
+	case spec.Slice:
+		if dest.Kind() != reflect.Slice {
+			return data, false
+		}
+		if data == nil {
+			if e := n.Eff(); e.HasDefault {
+				dv := reflect.ValueOf(e.Default)
+				if dv.IsValid() && dv.Type() == dest.Type() && dv.Len() > 0 {
+					dest.Set(dv)
+					return data, true
+				}
+			}
+			return data, false
+		}
+		typed := reflect.ValueOf(typedInput(n, data))
+		if !typed.IsValid() || typed.Type() != dest.Type() || typed.Len() == 0 {
+			return data, false
+		}
+		switch r.Intn(3) {
+		case 0:
+			dest.Set(typed) // the very same slice
+		case 1:
+			dest.Set(typed.Slice(0, 0)) // emptied, still the same array
+		default:
+			dest.Set(typed.Slice(0, typed.Len()-1+r.Intn(2)))
+		}
+		return typed.Interface(), true
+	}
+	return data, false
 }
 
 // spareCapacity replaces every empty slice by an empty slice with capacity 4.
